@@ -96,7 +96,15 @@ func c02Build(res *explore.Result, g *gram.Grammar, inputs [][]byte, keepGoing b
 			continue
 		}
 		for s := 0; s <= len(w); s++ {
-			for nt := -1; nt < len(b.NT); nt++ {
+			for nt0 := -1; nt0 < 2*len(b.NT)+1; nt0++ {
+				// every entry point twice: plain, and (short inputs) with the optional passes enabled on the context
+				nt, flagged := nt0, false
+				if nt0 >= len(b.NT) {
+					if len(w) > 2 {
+						break
+					}
+					nt, flagged = nt0-len(b.NT)-1, true
+				}
 				// entry points: every nonterminal, and the root expression when the grammar has one
 				var entry parsley.Parser
 				if nt >= 0 {
@@ -107,6 +115,12 @@ func c02Build(res *explore.Result, g *gram.Grammar, inputs [][]byte, keepGoing b
 					continue
 				}
 				ctx, r, _ := impl.NewContext(w)
+				if flagged {
+					// the optional passes switched on in the context: what the context is configured to do AFTER the
+					// parse must not change how often a parser may re-enter
+					ctx.EnableTransformation()
+					ctx.EnableStaticCheck()
+				}
 				b.Mon.Reset()
 				o := b.Run(ctx, entry, r.Pos(s))
 				res.Add("states", 1)
